@@ -8,6 +8,7 @@
 
 mod c01;
 mod c04;
+mod cabort;
 mod ccrash;
 mod cmodel;
 mod dbexec;
